@@ -57,7 +57,7 @@ def render_stmt(rng, st, files=None):
     if k == 'data':
         d = {1: '.byte', 2: '.2byte', 4: '.4byte', 8: '.8byte'}[st['w']]
         return d + ' ' + ', '.join(rexpr(rng, e) for e in st['vals'])
-    if k == 'bytes':
+    if k in ('bytes', 'str'):
         return st['text']
     if k == 'fill':
         if st.get('zero'):
@@ -92,7 +92,7 @@ def render_file(rng, stmts):
 
 def model_stmt(st):
     st = dict(st)
-    st.pop('text', None) if st['k'] != 'bytes' else None
+    st.pop('text', None)
     if st['k'] == 'instr':
         st['opcode'] = INSTRS[st['mn']][0]
     return st
